@@ -1219,7 +1219,12 @@ func (x *Exec) siteWithOrdinal(ins ssa.Instruction, name string) string {
 				case c.StaticCallee() != nil:
 					n = FuncName(originOf(c.StaticCallee()))
 				default:
-					continue
+					// a local closure variable assigned exactly once: `write := func(...) {...}; write(a, b)`
+					if fn := singleClosureOf(c.Value); fn != nil {
+						n = FuncName(originOf(fn))
+					} else {
+						continue
+					}
 				}
 				sites = append(sites, site{i, n})
 			}
@@ -1235,6 +1240,29 @@ func (x *Exec) siteWithOrdinal(ins ssa.Instruction, name string) string {
 		return n
 	}
 	return name
+}
+
+// singleClosureOf: v is a load of a local variable whose only store is a closure literal.
+func singleClosureOf(v ssa.Value) *ssa.Function {
+	u, ok := v.(*ssa.UnOp)
+	if !ok {
+		return nil
+	}
+	cell, ok := u.X.(*ssa.Alloc)
+	if !ok || cell.Referrers() == nil {
+		return nil
+	}
+	var fn *ssa.Function
+	for _, r := range *cell.Referrers() {
+		if st, ok := r.(*ssa.Store); ok && st.Addr == cell {
+			mc, ok := st.Val.(*ssa.MakeClosure)
+			if !ok || fn != nil {
+				return nil
+			}
+			fn, _ = mc.Fn.(*ssa.Function)
+		}
+	}
+	return fn
 }
 
 func (x *Exec) siteClauses(kind, name string) []*Clause {
@@ -1257,6 +1285,20 @@ func (x *Exec) siteReachedObligations() {
 		if strings.HasPrefix(k, "assert:") || strings.HasPrefix(k, "assertafter:") {
 			keys = append(keys, k)
 		}
+	}
+	for gi := range x.FC.Ghosts {
+		g := x.FC.Ghosts[gi]
+		if !strings.HasPrefix(g.At, "call:") && !strings.HasPrefix(g.At, "after:") {
+			continue
+		}
+		o := &Obligation{Name: fmt.Sprintf("%s:ghost-reached:%s:%s#%d", x.funcLabel(), g.At, g.LHS, gi), Kind: "ghost-reached",
+			Func: x.funcLabel(), Goal: TTrue, Status: "unsat", Solver: "front-end",
+			Text: "the ghost update '" + g.Text + "' is executed on some path (its anchor exists)"}
+		if x.ghostSeen[g] == 0 {
+			o.Goal, o.Status = TFalse, "unreached"
+			o.Model = "no explored path executes this ghost update: the call it is anchored at is gone or unreachable"
+		}
+		x.Obls = append(x.Obls, o)
 	}
 	sort.Strings(keys)
 	for _, k := range keys {
@@ -1304,12 +1346,14 @@ func (x *Exec) runGhosts(st *State, env *Env, anchor string) {
 	if os.Getenv("GOVC_DEBUG") != "" {
 		fmt.Fprintf(os.Stderr, "runGhosts %s\n", anchor)
 	}
-	for _, g := range x.FC.Ghosts {
+	for gi := range x.FC.Ghosts {
+		g := x.FC.Ghosts[gi]
 		if g.At != anchor {
 			if i := strings.Index(anchor, "#"); i < 0 || g.At != anchor[:i] {
 				continue
 			}
 		}
+		x.ghostSeen[g]++
 		e := g.Stmt
 		if len(x.FC.Lets) > 0 {
 			e = substExpr(e, x.FC.Lets)
